@@ -254,8 +254,13 @@ func vpH_C17_breaker_step() {
 }
 
 // vpH_C17_T_breaker_seq: call sequences from NewCircuitBreaker, threshold 1..3, symbolic gaps.
-func vpH_C17_T_breaker_seq() {
-	thr := 1 + vpChoose("threshold", 3)
+func vpH_C17_T_breaker_seq() { vpC17BreakerSeq(3) }
+
+// thorough: thresholds up to 5 (sequences of up to 12 calls)
+func vpH_C17_T_breaker_seq5() { vpC17BreakerSeq(5) }
+
+func vpC17BreakerSeq(maxThr int) {
+	thr := 1 + vpChoose("threshold", maxThr)
 	cool := time.Duration(vpInt64("cooldown"))
 	vpAssume(vpAnd(cool >= time.Millisecond, cool <= time.Hour))
 	cb := NewCircuitBreaker(thr, cool)
